@@ -215,8 +215,15 @@ func (v *SimpleCompositeValue) RemoveMember(_ ValueTransferContext, name string)
 	return value
 }
 
-func (v *SimpleCompositeValue) SetMember(_ ValueTransferContext, name string, value Value) bool {
-	_, hasField := v.Fields[name]
+func (v *SimpleCompositeValue) SetMember(context ValueTransferContext, name string, value Value) bool {
+	existingValue, hasField := v.Fields[name]
+
+	// Prevent the loss of a resource that is still held by the field,
+	// e.g. a force-assignment to a resource-typed field of a transaction
+	if hasField && existingValue != nil {
+		CheckResourceLoss(context, existingValue)
+	}
+
 	v.Fields[name] = value
 	return hasField
 }
